@@ -76,6 +76,15 @@ _reg("datetime_rows", S.schema2("datetime_rows", _DT, B2), 0,
      [((0, 1), 1, None), ((1, 1), 1, None), ((1, 2), 1, None), ((2, 2), 1, None), ((2, 1), 1, None), ((2, 2), 1, None)])
 _reg("datetime_cols", S.schema2("datetime_cols", B2, _DT), 1,
      [((1, 0), 1, None), ((1, 1), 1, None), ((2, 1), 1, None), ((2, 2), 1, None), ((1, 2), 1, None), ((2, 2), 1, None)])
+# element ids that are not the list positions: the missing element listed FIRST, and sparse ids
+_DTF = S.enum("t", "datetime", 3, missing_first=True)
+_reg("datetime_mf_rows", S.schema2("datetime_mf_rows", _DTF, B2), 0,
+     [((0, 1), 1, None), ((1, 1), 1, None), ((1, 2), 1, None), ((2, 2), 1, None), ((2, 1), 1, None), ((3, 2), 1, None)])
+_reg("datetime_mf_cols", S.schema2("datetime_mf_cols", B2, _DTF), 1,
+     [((1, 0), 1, None), ((1, 1), 1, None), ((2, 1), 1, None), ((2, 2), 1, None), ((1, 2), 1, None), ((2, 3), 1, None)])
+_DTS = EnumVar("t", "datetime", [(2, "2020-01-01"), (5, "2020-01-02"), (7, "2020-01-03")])
+_reg("datetime_sparse_rows", S.schema2("datetime_sparse_rows", _DTS, B2), 0,
+     [((2, 1), 1, None), ((5, 1), 1, None), ((5, 2), 1, None), ((7, 2), 1, None), ((7, 1), 1, None), ((8, 2), 1, None)])
 SCHEMAS = {k: v["schema"] for k, v in DIMS.items()}
 
 
